@@ -24,6 +24,10 @@ pub struct Case {
     pub sim: SimKnobs,
     #[serde(default)]
     pub schedule: Option<ScheduleRec>,
+    /// engine-level nondeterminism detector: replay the recorded schedule strictly and demand
+    /// zero divergence and an identical transcript
+    #[serde(default)]
+    pub recheck: bool,
 }
 
 pub fn draw_knobs(rng: &mut Rng) -> SimKnobs {
@@ -101,8 +105,14 @@ impl Prop for C09 {
                 recipe: Some(g.recipe),
             }
         };
-        let has_debug = crate::wasmsplit::customs(&picked.bytes).map(|c| c.iter().any(|(n, _)| n.starts_with(b".debug"))).unwrap_or(true);
-        let cfg = draw_cfg(rng, !has_debug);
+        let picked = inputs::maybe_attach_dwarf(picked, rng, 1, 8);
+        let (has, synth) = inputs::debug_status(&picked.iref.source, &picked.bytes);
+        let has_debug = has && !synth;
+        let mut cfg = draw_cfg(rng, !has_debug);
+        if synth && rng.chance(3, 4) {
+            // DWARF generation makes the per-function offset maps flow through the serial post-pass
+            cfg.dwarf = true;
+        }
         let mut ops = Vec::new();
         let n = rng.range(1, 4);
         for _ in 0..n {
@@ -110,7 +120,13 @@ impl Prop for C09 {
                 0..=4 => Op::Emit,
                 5..=6 => Op::Gc,
                 7 => Op::Query,
-                _ => Op::Reparse { cfg: draw_cfg(rng, !has_debug) },
+                _ => {
+                    let mut c = draw_cfg(rng, !has_debug);
+                    if synth {
+                        c.dwarf = false;
+                    }
+                    Op::Reparse { cfg: c }
+                }
             });
         }
         ops.push(Op::Emit);
@@ -121,6 +137,7 @@ impl Prop for C09 {
             ambient: Ambient { entropy: rng.u64(), arena_burn: *rng.pick(&[0u32, 0, 1, 3, 100, 70000]), heap_pad: rng.below(3) as u8 },
             sim: draw_knobs(rng),
             schedule: None,
+            recheck: rng.chance(1, 40),
         };
         serde_json::to_value(case).unwrap()
     }
@@ -198,6 +215,15 @@ impl Prop for C09 {
                 }
             }
         }
+        if case.recheck && case.schedule.is_none() && out.failure.is_none() && out.harness_error.is_none() {
+            let again = life::run_par(env, &input, &case.cfg, &case.ops, &case.ambient, &case.sim, Some((sim.schedule.clone(), true)), tag);
+            let div = again.sim.as_ref().map(|s| s.stats.replay_divergences).unwrap_or(0);
+            out.hit("schedules_replayed_strictly");
+            if div > 0 || again.transcript != par.transcript || again.sim.as_ref().map(|s| &s.schedule) != Some(&sim.schedule) {
+                out.harness_error = Some(format!("uncontrolled nondeterminism: strict replay of the recorded schedule diverged ({} divergences, transcript equal: {})", div, again.transcript == par.transcript));
+                return out;
+            }
+        }
         let tpar_digest = par.transcript.as_ref().map(|t| t.digest()).unwrap_or(0);
         let sched_digest = prng::fnv(serde_json::to_string(&sim.schedule).unwrap().as_bytes());
         out.digest = prng::mix64(prng::mix64(tser.digest(), tpar_digest), sched_digest);
@@ -262,7 +288,7 @@ impl Prop for C09 {
             v.push(d);
         }
         // smaller generated input
-        if let Some(rest) = c.input.source.strip_prefix("gen:") {
+        if let Some(rest) = c.input.source.strip_prefix("gen:").filter(|_| !c.cfg.dwarf) {
             if let Ok(p) = serde_json::from_str::<GenParams>(rest) {
                 let mut smaller = Vec::new();
                 if p.n_funcs > 2 {
